@@ -42,7 +42,7 @@ def run(ctx):
     ctx.rule("C23.R1", "binop_map: each key OP+TYPE maps to <carrier>.<op> with the signedness of TYPE", floor=70)
     ctx.rule("C23.R2", "load/store/const tables: carrier type, access width and sign extension agree with the key", floor=28)
     ctx.rule("C23.R3", "cast_operators2: a type-correct chain from the carrier of the source to the carrier of the destination; float->int truncates; signedness follows the integer side", floor=30)
-    ctx.rule("C23.R4", "a failure to structure the control flow propagates out of ir_to_wasm", floor=1)
+    ctx.rule("C23.R4", "a failure to structure the control flow propagates out of ir_to_wasm", floor=4)
     cls = ctx.cls(F, "IrToWasmCompiler")
     site = F + ":IrToWasmCompiler."
     bm = _table(cls, "binop_map")
@@ -136,3 +136,25 @@ def run(ctx):
     fs = [c for fn in ast.walk(mod.tree) if isinstance(fn, ast.FunctionDef) for c in calls_in(fn, "find_structure")]
     ctx.need(fs, "ppci2wasm no longer calls find_structure")
     ctx.ob("C23.R4", F, "no except clause around find_structure/do_function continues after a failure", not swallow, construct="no-swallow", node=swallow[0] if swallow else None)
+    # the structure detector refuses, rather than guesses, when a loop has more than one exit target
+    G = "ppci/graph/relooper.py"
+    fl = ctx.fn(G, "StructureDetector.follows_loop")
+    site = G + ":StructureDetector.follows_loop"
+    loops = [l for l in walk_no_nested(fl) if isinstance(l, ast.For)]
+    early = [r for l in loops for r in ast.walk(l) if isinstance(r, (ast.Return, ast.Break))]
+    ctx.ob("C23.R4", site, "every exit edge of every loop node is examined before a follow-up node is chosen (no return from inside the scan: the first exit found is not necessarily the only one)", bool(loops) and not early,
+           construct="all-exits-scanned", node=early[0] if early else fl)
+    raises = [n for n in walk_no_nested(fl) if isinstance(n, ast.Raise)]
+    from .. import sym
+    ok = False
+    for r in raises:
+        cj = [" ".join(norm(e).split()) for e, pol in sym.conjuncts(r, fl, {}) if pol]
+        if any(t.startswith("len(") and ("!= 1" in t or "> 1" in t) for t in cj):
+            ok = True
+    ctx.ob("C23.R4", site, "a loop that is left towards more than one node outside its dominance region is reported (ValueError), not structured around an arbitrary one of them", ok, construct="multi-exit-raises")
+    rets = [r for r in walk_no_nested(fl) if isinstance(r, ast.Return) and r.value is not None]
+    ok = bool(rets) and all(raises and r.lineno > raises[0].lineno for r in rets) if raises else False
+    ctx.ob("C23.R4", site, "the follow-up node is returned only after the uniqueness check", ok, construct="return-after-check")
+    dom = [c for c in ast.walk(fl) if isinstance(c, ast.Call) and last_name(c) == "strictly_dominates"]
+    ok = len(dom) == 1 and norm(dom[0].args[0]).endswith(".header") and any(isinstance(a, ast.If) and isinstance(a.test, ast.UnaryOp) for a in [dom[0]._parent._parent, dom[0]._parent])
+    ctx.ob("C23.R4", site, "only exits that the loop header does not strictly dominate count as follow-up candidates (dominated exits are part of the loop's own region)", ok, construct="dominance-filter")
